@@ -250,7 +250,10 @@ func ExpectedMatches(p Pat, def Define, ev []MREvent, skip string) (ms []MRMatch
 		case skip == SkipNextRow:
 			s++
 		default:
-			f := strings.Fields(skip) // TO FIRST X / TO LAST X
+			f := strings.Fields(skip) // TO FIRST X / TO LAST X / TO X (= TO LAST X)
+			if len(f) == 2 {
+				f = []string{"TO", "LAST", f[1]}
+			}
 			target := -1
 			for _, lab := range m.Labelings {
 				t := -1
